@@ -228,6 +228,43 @@ def run(chk, model_ok=True):
                 why = c11.check_payload(stt, rec, dg, [rec["arg"]])
             if why:
                 fail(f"{s.label} ({akt}/{pkt} keys): {why}", s.line())
+    # the key classes of user.py against their model (padding, codes, refusal of priv without auth)
+    ulines, uwant = [], []
+    for k in range(300 if quick else 6000):
+        aalg = rng.choice([1, 2, None])
+        palg = rng.choice([1, 2, None, None])
+        akt, pkt = rng.randrange(3), rng.randrange(3)
+        akey = bytes(rng.getrandbits(8) for _ in range(rng.choice([0, 1, 8, 15, 16, 17, 19, 20, 21, 32, 40])))
+        pkey = bytes(rng.getrandbits(8) for _ in range(rng.choice([0, 1, 8, 15, 16, 17, 19, 20, 21, 32, 40])))
+        name = "".join(rng.choice("abcxyz019") for _ in range(rng.randrange(0, 9)))
+        KTS = [KeyType.Password, KeyType.Master, KeyType.Localized]
+
+        def build():
+            ak = (Md5Key if aalg == 1 else Sha1Key)(akey, key_type=KTS[akt]) if aalg else None
+            pk = (DesKey if palg == 1 else Aes128Key)(pkey, key_type=KTS[pkt]) if palg else None
+            u = User(name, auth_key=ak, priv_key=pk)
+            return (u.get_auth_alg(), u.get_auth_key(), u.get_priv_alg(), u.get_priv_key())
+        r = e2e.ncall(build)
+        ulines.append(f"userkeys {gens.hx(name.encode())} {aalg or '-'} {akt} {gens.hx(akey)} {palg or '-'} {pkt} {gens.hx(pkey)}")
+        if r[0] == "ok":
+            uwant.append(f"ok {r[1][0]} {gens.hx(r[1][1])} {r[1][2]} {gens.hx(r[1][3])}")
+            # independent expectation: aligned keys have the digest's size, codes carry alg and type
+            if aalg and akt and len(r[1][1]) != KS[aalg]:
+                fail(f"user.py hands the socket a {['password', 'master', 'localized'][akt]} auth key of {len(r[1][1])} octets", ulines[-1])
+            if r[1][0] != (aalg or 0) + ((akt << 6) if aalg else 0):
+                fail(f"user.py auth code {r[1][0]} for alg {aalg} key type {akt}", ulines[-1])
+        else:
+            uwant.append(f"pyerr {r[1]}")
+            if not (palg and not aalg and r[1] == "ValueError"):
+                fail(f"user.py raised {r[1]} for auth {aalg}/{akt} priv {palg}/{pkt}", ulines[-1])
+    n_user = len(ulines)
+    if model_ok:
+        uo, _, _ = common.run_model(ulines)
+        ud = [(l, w, g) for l, w, g in zip(ulines, uwant, uo + ["<missing>"] * (len(ulines) - len(uo))) if w != g]
+        if ud:
+            chk.violation("correspondence", f"user.py vs Model/User.lean: {len(ud)} of {len(ulines)} differ; first: {ud[0][0][:120]} impl={ud[0][1][:80]} model={ud[0][2][:80]}",
+                          {"kind": "correspondence", "stream": "userkeys", "lines": [d[0] for d in ud[:10]], "impl": [d[1] for d in ud[:10]],
+                           "model": [d[2] for d in ud[:10]], "broken": ["correspondence userkeys: Lean Py.mkUser vs user.py"]}, no_input=True)
     # malformed key material at the socket constructor: exception, never a crash
     n_ctor = 0
     for k in range(300 if quick else 6000):
@@ -249,7 +286,8 @@ def run(chk, model_ok=True):
         all_sess.append(_CtorCase(line, "ok -" if r[0] == "ok" else (f"pyerr {r[1]}" if r[2] else "PANIC")))
     nl, nd = model_compare_mixed(chk, all_sess, model_ok)
     chk.coverage.update({
-        "evaluations": len(st.lines) + n_api + n_sess + n_ctor,
+        "evaluations": len(st.lines) + n_api + n_sess + n_ctor + n_user,
+        "user_py_cases": n_user,
         "distinct_nontrivial": len(set(st.lines)) + n_api + n_sess,
         "rule": "password->master key for password lengths 1..65537 and 2^20-1, 2^20, 2^20+1 (.., 2^21 in the thorough tier) "
                 "incl. lengths that divide 2^20 and that do not; localisation for engine ids of 0..32 octets; as_key_type for every "
